@@ -643,9 +643,8 @@ static int do_campaign(const Args& a) {
       for (auto& kf : a.known)
         if (o.kind == kf.first && spec.cfgname.find(kf.second) != std::string::npos) known_key = kf.first + ":" + spec.cfgname;
       if (!known_key.empty()) {
-        known_hits[known_key]++;
-        if (known_saved[known_key]) continue;
-        known_saved[known_key] = true; // the first one is shrunk and saved below like any violation
+        known_hits[known_key]++; // counted, neither shrunk nor saved: the finding has its committed replay file
+        continue;
       }
       // ---- violation: make it explicit, shrink, confirm 3x, write replay file
       memcpy(&tcur, &S->out, sizeof(Traces));
